@@ -153,6 +153,9 @@ def walk_chain(n, env, nd=0):
            ('data', record, field)  the PCM a sample-data pointer field points to
            ('deref',)               a pointer value loaded from the next item is followed
            ('call', name) ('root', name, type) ('localobj', name, type)   chain ends"""
+    if isinstance(n, dict) and n.get("kind") == "__loaded":
+        # the value held in the location designated by the inner lvalue
+        return walk_chain(n["inner"][0], env, nd)
     n = strip(n)
     if n is None:
         return [[]]
@@ -292,7 +295,7 @@ def collect_function(fn, fname):
             rec, depth = record_of(t)
             if rec and depth:
                 pass   # typed by the DeclRefExpr fallback in walk_chain
-    stores, assigns, line = [], [], [0]
+    stores, assigns, published, line = [], [], [], [0]
     calls = fn.setdefault("_calls", set())
 
     def visit(n):
@@ -314,6 +317,15 @@ def collect_function(fn, fname):
             stores.append((here, inner[0]))
             if lhs is not None and lhs.get("kind") == "DeclRefExpr" and is_pointerish(qual(lhs)) and n.get("opcode") == "=":
                 assigns.append(((lhs.get("referencedDecl") or {}).get("name", "?"), inner[1]))
+            # publication: `table->slot = p` where p is a local pointer to a fresh allocation made in
+            # this function -- from then on p designates what the slot points to, so stores through p
+            # (also the earlier ones, flow-insensitively) are stores into that table's storage
+            rhs = strip(inner[1])
+            while rhs is not None and rhs.get("kind") == "BinaryOperator" and rhs.get("opcode") in ("+", "-"):
+                rhs = strip((rhs.get("inner") or [None])[0])
+            if (n.get("opcode") == "=" and rhs is not None and rhs.get("kind") == "DeclRefExpr"
+                    and is_pointerish(qual(rhs)) and (lhs is None or lhs.get("kind") != "DeclRefExpr")):
+                published.append(((rhs.get("referencedDecl") or {}).get("name", "?"), inner[0]))
         if k == "UnaryOperator" and n.get("opcode") in ("++", "--"):
             stores.append((here, inner[0]))
         if k == "CallExpr" and inner:
@@ -327,6 +339,16 @@ def collect_function(fn, fname):
             visit(c)
 
     visit(body[0])
+    fresh = set()
+    for name, init in assigns:
+        i = strip(init)
+        if i is not None and i.get("kind") == "CallExpr":
+            callee = strip((i.get("inner") or [None])[0])
+            if callee and (callee.get("referencedDecl") or {}).get("name") in ("malloc", "calloc", "realloc"):
+                fresh.add(name)
+    for name, lhs in published:
+        if name in fresh:
+            assigns.append((name, {"kind": "__loaded", "inner": [lhs]}))
     # fixpoint for local pointer provenance
     for _ in range(6):
         changed = False
